@@ -18,9 +18,9 @@ def main():
             stats, fails = vrun.fuzz_campaign(b, pid, bins[pid], rundir, int(os.environ.get('VERIF_SEED', '1')), scale, workers)
             keep = os.path.join('/var/tmp/fuzz_long', pid)
             print('%s %.0fs execs=%d pass=%d nontrivial=%d cov=%d fails=%d' % (pid, time.time() - t0, stats['execs'], stats['pass'], stats['nontrivial'], stats['coverage_edges'], len(fails)), flush=True)
-            for cf, kind, msg in fails:
+            for fi, (cf, kind, msg) in enumerate(fails):
                 os.makedirs(keep, exist_ok=True)
-                dst = os.path.join(keep, '%s_%d.case' % (kind, int(time.time() * 1000) % 100000000))
+                dst = os.path.join(keep, '%s_%d_%d.case' % (kind, int(time.time()) % 100000000, fi))
                 shutil.copy(cf, dst)
                 print('  FAIL %s %s :: %s' % (kind, dst, msg[-300:].replace('\n', ' | ')), flush=True)
         finally:
